@@ -28,12 +28,13 @@ Lemma judge_zero c gn gs :
 Proof.
   intros Hn Hs. unfold judge. rewrite Hn, Hs.
   destruct (model_naive c) as [mn| |]; destruct (model_semi c) as [ms| |];
-    destruct (set_eqb gs gn) eqn:Hag; try discriminate.
+    destruct (set_eqb gs gn) eqn:Hag; try (intros H; discriminate H).
   - destruct (set_eqb mn gn) eqn:Han; destruct (set_eqb ms gs) eqn:Has; simpl;
-      try (destruct (set_eqb mn ms); discriminate).
+      try (destruct (set_eqb mn ms); intros H; discriminate H).
     intros _. split.
     + intros f. symmetry. apply (proj1 (set_eqb_spec gs gn) Hag).
-    + exists mn, ms. repeat split; try apply (proj1 (set_eqb_spec _ _) Han); try apply (proj1 (set_eqb_spec _ _) Has).
-  - destruct (set_eqb mn gn && set_eqb ms gs); simpl; try discriminate.
-    destruct (negb (set_eqb mn gn)); destruct (set_eqb mn gn); destruct (set_eqb ms gs); simpl; discriminate.
+    + exists mn, ms. split; [reflexivity|]. split; [reflexivity|]. split.
+      * apply (proj1 (set_eqb_spec _ _) Han).
+      * apply (proj1 (set_eqb_spec _ _) Has).
+  - destruct (set_eqb mn gn); destruct (set_eqb ms gs); simpl; intros H; discriminate H.
 Qed.
